@@ -35,6 +35,9 @@ def truth(v, case):
         if t is None:
             raise Undecided([repr(v)])
         return t
+    if isinstance(v, Sym) and v.is_const():
+        # "flags exactly the values outside the range": a number is a flag by its truth value
+        return v.const_value() != 0
     raise AnalysisError('flag is not a boolean: %r' % (v,))
 
 
